@@ -27,7 +27,7 @@ import c07
 
 
 # the case directories of the harness (harness/common.go caseDirName)
-SCRATCH = re.compile(r"/\S*?/(?:c\d+|my ledger \d+|бухгалтерия\d+|taxes \[\d+\]|books\{\d+\})/")
+SCRATCH = re.compile(r"/\S*?/(?:c\d+|my ledger \d+|бухгалтерия\d+|taxes \[\d+\]|books\{\d+\}|R&D 2024\+25 @home=\d+)/")
 
 
 def norm_diag(d):
